@@ -140,8 +140,8 @@ func ruleRollbackTx(r *Report, rule string) {
 		if !ok || fs.Init == nil || fs.Post == nil || fs.Cond == nil {
 			return true
 		}
-		ini := exprStr(fs.Init.(*ast.AssignStmt).Rhs[0])
-		post := exprStr(fs.Post.(*ast.AssignStmt).Rhs[0])
+		ini := stmtRhsStr(fs.Init)
+		post := stmtRhsStr(fs.Post)
 		condMentionsFlag := false
 		ast.Inspect(fs.Cond, func(y ast.Node) bool {
 			if u, ok := y.(*ast.UnaryExpr); ok && u.Op == token.NOT && targetSeenFlags[objOf(info, u.X)] {
@@ -381,4 +381,12 @@ func ruleSegmentIDsNotReissued(r *Report, rule string) {
 	})
 	r.Ob(rule, fi.Name+"/nextSegmentID-from-files-on-disk", fi.Decl.Pos(), n > 0 && okDisk && okInc, "on open the segment id counter restarts above the highest *.zap file present on disk (which includes files of retained older rollback points), so a new segment can never overwrite a file an older snapshot still names")
 	r.Ob(rule, fi.Name+"/counter-advanced-past-the-maximum", fi.Decl.Pos(), okInc, "the counter is incremented past the highest id found")
+}
+
+// stmtRhsStr: the text of the (first) right-hand side of an assignment statement, "" for anything else.
+func stmtRhsStr(s ast.Stmt) string {
+	if as, ok := s.(*ast.AssignStmt); ok && len(as.Rhs) > 0 {
+		return exprStr(as.Rhs[0])
+	}
+	return ""
 }
